@@ -147,3 +147,384 @@ class LabelOracle:
                 want[frozenset(kk.items())] = v
             return [] if dict_close(want, label_dict(d)) else ["C02:labels-moved:" + sig]
         return []
+
+
+# ------------------------------------------------------------------------------------ C03
+def deep_snap(d):
+    """everything observable about an object, by value"""
+    return {
+        "dims": list(d.dims),
+        "coords": [np.array(c, copy=True) for c in d.coords.coords],
+        "values": np.array(d.values, copy=True),
+        "attrs": copy.deepcopy(d.attrs),
+        "dattrs": copy.deepcopy(getattr(d, "dnplab_attrs", {})),
+        "hist": copy.deepcopy(getattr(d, "proc_attrs", [])),
+        "folded": d._is_folded,
+    }
+
+
+def _eq(a, b):
+    if isinstance(a, np.ndarray) or isinstance(b, np.ndarray):
+        a, b = np.asarray(a), np.asarray(b)
+        return a.shape == b.shape and a.dtype == b.dtype and bool(np.array_equal(a, b, equal_nan=True)) if a.dtype.kind in "fc" else (a.shape == b.shape and bool(np.array_equal(a, b)))
+    if isinstance(a, dict) and isinstance(b, dict):
+        return list(a.keys()) == list(b.keys()) and all(_eq(a[k], b[k]) for k in a)
+    if isinstance(a, (list, tuple)) and isinstance(b, (list, tuple)):
+        return type(a) == type(b) and len(a) == len(b) and all(_eq(x, y) for x, y in zip(a, b))
+    try:
+        return bool(a == b)
+    except Exception:
+        return False
+
+
+def snap_diff(s0, s1):
+    out = []
+    for k in s0:
+        if k == "coords":
+            if len(s0[k]) != len(s1[k]) or not all(_eq(x, y) for x, y in zip(s0[k], s1[k])):
+                out.append(k)
+        elif not _eq(s0[k], s1[k]):
+            out.append(k)
+    return out
+
+
+RECEIVER_OPS = {"reorder", "sort_dims", "rename", "sort", "new_dim", "squeeze", "split", "concatenate",
+                "unfold", "fold", "setitem", "set_attr", "set_dattr", "add_hist", "set_value", "set_coord"}
+
+
+def shares_state(a, b):
+    """names of mutable parts two distinct objects share"""
+    out = []
+    if a.attrs is b.attrs:
+        out.append("attrs")
+    if getattr(a, "dnplab_attrs", None) is getattr(b, "dnplab_attrs", 0):
+        out.append("dnplab_attrs")
+    if getattr(a, "proc_attrs", None) is getattr(b, "proc_attrs", 0):
+        out.append("proc_attrs")
+    if a.coords is b.coords or a.coords.coords is b.coords.coords or a.coords.dims is b.coords.dims:
+        out.append("coords")
+    try:
+        if np.asarray(a.values).size and np.shares_memory(a.values, b.values):
+            out.append("values")
+        for ca in a.coords.coords:
+            for cb in b.coords.coords:
+                if np.asarray(ca).size and np.shares_memory(ca, cb):
+                    out.append("coord-array")
+    except Exception:
+        pass
+    for k, v in a.attrs.items():
+        if isinstance(v, (list, dict, np.ndarray)) and k in b.attrs and b.attrs[k] is v:
+            out.append("attrs[%s]" % k)
+    return sorted(set(out))
+
+
+class FrameOracle:
+    """C03: apart from the receiver of an in-place method nothing in the store changes,
+    whether the call returns or raises; a raising in-place call leaves the receiver as it was;
+    no two distinct objects share mutable state"""
+
+    def pre(self, op, st):
+        return {k: deep_snap(v) for k, v in st.objs.items()}
+
+    def post(self, op, st, line, pre):
+        out = []
+        sig = op_sig(op)
+        recv = op.get("obj") if op["op"] in RECEIVER_OPS else None
+        for k, s0 in pre.items():
+            if k not in st.objs:
+                continue
+            if k == recv and line["outcome"] == "ok":
+                continue
+            if k == op.get("out") or (op["op"] == "new" and k == op.get("id")):
+                continue
+            d = snap_diff(s0, deep_snap(st.objs[k]))
+            if d:
+                kind = "receiver-changed-on-raise" if k == recv else "argument-modified"
+                out.append("C03:%s:%s:%s" % (kind, sig, "+".join(d)))
+        ids = sorted(st.objs)
+        for i in range(len(ids)):
+            for j in range(i + 1, len(ids)):
+                a, b = st.objs[ids[i]], st.objs[ids[j]]
+                if a is b:
+                    continue
+                sh = shares_state(a, b)
+                if sh:
+                    out.append("C03:shared-state:%s:%s" % (sig, "+".join(sh)))
+        return out
+
+
+# ------------------------------------------------------------------------------------ C11
+class HistoryOracle:
+    """C11: a processing step's output history = the input's history (unchanged, in order)
+    followed by at least one new entry; the input's own history is not altered"""
+    STEPS = ("np_unary", "np_binary", "np_scalar", "np_reduce", "proc")
+
+    def pre(self, op, st):
+        if op["op"] not in self.STEPS:
+            return None
+        key = "obj" if "obj" in op else "lhs"
+        if op.get(key) not in st.objs:
+            return None
+        return copy.deepcopy(st.objs[op[key]].proc_attrs)
+
+    def post(self, op, st, line, pre):
+        if pre is None or line["outcome"] != "ok" or op.get("out") not in st.objs:
+            return []
+        if op["op"] == "np_reduce" and op.get("axis") is None:
+            return []
+        sig = op_sig(op)
+        key = "obj" if "obj" in op else "lhs"
+        out = []
+        res = st.objs[op["out"]].proc_attrs
+        src = st.objs[op[key]].proc_attrs
+        if not _eq(list(src), list(pre)):
+            out.append("C11:input-history-altered:" + sig)
+        if not _eq(list(res[: len(pre)]), list(pre)):
+            out.append("C11:prefix-lost:" + sig)
+        elif len(res) <= len(pre):
+            out.append("C11:no-new-entry:" + sig)
+        else:
+            ent = res[len(pre)]
+            if not (isinstance(ent, tuple) and len(ent) == 2 and isinstance(ent[0], str) and ent[0] and isinstance(ent[1], dict)):
+                out.append("C11:malformed-entry:" + sig)
+        return out
+
+
+# ------------------------------------------------------------------------------------ C04
+class ArithOracle:
+    """C04: element-wise by label, union dims, mismatch raises, scalar/array = NumPy"""
+    FN = {"add": lambda x, y: x + y, "sub": lambda x, y: x - y, "mul": lambda x, y: x * y,
+          "truediv": lambda x, y: x / y}
+
+    def pre(self, op, st):
+        o = op["op"]
+        if o == "binop":
+            a, b = st.objs.get(op["lhs"]), st.objs.get(op["rhs"])
+            if a is None or b is None:
+                return None
+            return {"a": label_dict(a), "b": label_dict(b), "adims": list(a.dims), "bdims": list(b.dims),
+                    "acoords": {d: np.array(a.coords[d]) for d in a.dims},
+                    "bcoords": {d: np.array(b.coords[d]) for d in b.dims}}
+        if o in ("scalarop", "arrayop"):
+            a = st.objs.get(op["obj"])
+            return None if a is None else {"s": deep_snap(a)}
+        return None
+
+    def post(self, op, st, line, pre):
+        if pre is None:
+            return []
+        o, sig = op["op"], op_sig(op)
+        if o == "binop":
+            shared = [d for d in pre["adims"] if d in pre["bdims"]]
+            mismatch = any(len(pre["acoords"][d]) != len(pre["bcoords"][d]) or
+                           not np.allclose(pre["acoords"][d], pre["bcoords"][d]) for d in shared)
+            if mismatch:
+                return [] if line["outcome"].startswith("raise") else ["C04:mismatch-not-refused:" + sig]
+            if line["outcome"] != "ok":
+                return ["C04:unexpected-raise:" + sig]
+            r = st.objs[op["out"]]
+            want_dims = pre["adims"] + [d for d in pre["bdims"] if d not in pre["adims"]]
+            if list(r.dims) != want_dims:
+                return ["C04:dims-not-union:" + sig]
+            rd = label_dict(r)
+            if rd is None or pre["a"] is None or pre["b"] is None:
+                return ["C04:result-unreadable:" + sig]
+            f = self.FN[op["f"]]
+            aset, bset = set(pre["adims"]), set(pre["bdims"])
+            for key, v in rd.items():
+                ka = frozenset(x for x in key if x[0] in aset)
+                kb = frozenset(x for x in key if x[0] in bset)
+                if ka not in pre["a"] or kb not in pre["b"]:
+                    return ["C04:label-missing:" + sig]
+                w = f(pre["a"][ka], pre["b"][kb])
+                if abs(v - w) > 1e-9 * max(1.0, abs(w)):
+                    return ["C04:wrong-element:" + sig]
+            n = 1
+            for d in want_dims:
+                n *= len(pre["acoords"][d]) if d in pre["acoords"] else len(pre["bcoords"][d])
+            if len(rd) != n:
+                return ["C04:element-count:" + sig]
+            return []
+        if o in ("scalarop", "arrayop"):
+            if line["outcome"] != "ok":
+                return []
+            from implstore import to_val, to_arr
+            s = pre["s"]
+            other = to_val(op["scalar"]) if o == "scalarop" else to_arr(op["values"], op["shape"])
+            f = self.FN[op["f"]]
+            want = f(other, s["values"]) if op.get("refl") else f(s["values"], other)
+            r = st.objs[op["out"]]
+            ok = (list(r.dims) == s["dims"] and len(r.coords.coords) == len(s["coords"]) and
+                  all(_eq(np.asarray(x), y) for x, y in zip(r.coords.coords, s["coords"])) and
+                  np.asarray(r.values).shape == want.shape and np.allclose(r.values, want, rtol=1e-12, atol=0))
+            return [] if ok else ["C04:plain-operand:" + sig]
+        return []
+
+
+# ------------------------------------------------------------------------------------ C10
+class NumpyOracle:
+    """C10: NumPy's own answer on each operand's values, labels kept / exactly one dim removed"""
+
+    def pre(self, op, st):
+        o = op["op"]
+        if o in ("np_unary", "np_scalar", "np_reduce"):
+            a = st.objs.get(op["obj"])
+            return None if a is None else {"a": deep_snap(a)}
+        if o == "np_binary":
+            a, b = st.objs.get(op["lhs"]), st.objs.get(op["rhs"])
+            return None if a is None or b is None else {"a": deep_snap(a), "b": deep_snap(b)}
+        return None
+
+    def post(self, op, st, line, pre):
+        if pre is None:
+            return []
+        from implstore import NPUN, NPBIN, NPRED, to_val
+        o, sig = op["op"], op_sig(op)
+        a = pre["a"]
+
+        def same_labels(r, dims, coords):
+            return (list(r.dims) == dims and len(r.coords.coords) == len(coords) and
+                    all(_eq(np.asarray(x), y) for x, y in zip(r.coords.coords, coords)))
+
+        try:
+            if o == "np_unary":
+                want = NPUN[op["f"]](a["values"])
+            elif o == "np_scalar":
+                c = to_val(op["scalar"])
+                want = NPBIN[op["f"]](c, a["values"]) if op.get("refl") else NPBIN[op["f"]](a["values"], c)
+            elif o == "np_binary":
+                want = NPBIN[op["f"]](a["values"], pre["b"]["values"])
+            else:
+                ax = op.get("axis")
+                if ax is None:
+                    want = NPRED[op["f"]](a["values"])
+                else:
+                    k = a["dims"].index(ax) if isinstance(ax, str) else ax
+                    want = NPRED[op["f"]](a["values"], axis=k)
+        except Exception:
+            return [] if line["outcome"].startswith("raise") else ["C10:numpy-raises-but-call-returned:" + sig]
+        if line["outcome"] != "ok":
+            return ["C10:unexpected-raise:" + sig]
+        if o == "np_reduce" and (op.get("axis") is None or len(a["dims"]) == 1):
+            got = line.get("ret")
+            from common import parse_g
+            if got is None:
+                return ["C10:full-reduction-not-scalar:" + sig]
+            w = complex(np.asarray(want).item())
+            return [] if abs(parse_g(got) - w) <= 1e-9 * max(1.0, abs(w)) else ["C10:wrong-value:" + sig]
+        r = st.objs.get(op.get("out"))
+        if r is None:
+            return ["C10:no-result:" + sig]
+        if np.asarray(r.values).shape != np.asarray(want).shape or not np.allclose(r.values, want, rtol=1e-12, atol=0):
+            return ["C10:wrong-value:" + sig]
+        if o == "np_reduce":
+            ax = op["axis"]
+            k = a["dims"].index(ax) if isinstance(ax, str) else ax
+            k = k % len(a["dims"])
+            dims = a["dims"][:k] + a["dims"][k + 1:]
+            coords = a["coords"][:k] + a["coords"][k + 1:]
+        else:
+            dims, coords = a["dims"], a["coords"]
+        return [] if same_labels(r, dims, coords) else ["C10:labels-wrong:" + sig]
+
+
+# ------------------------------------------------------------------------------------ C05
+class IndexOracle:
+    """C05: the selection specification of the property, evaluated on the real result"""
+
+    def pre(self, op, st):
+        if op["op"] not in ("getitem", "setitem"):
+            return None
+        a = st.objs.get(op["obj"])
+        return None if a is None else {"a": deep_snap(a), "obj": a.copy() if op["op"] == "setitem" else None}
+
+    @staticmethod
+    def expected_positions(c, sel):
+        """(allowed_min, must_contain, exact) position sets from the property statement"""
+        from fractions import Fraction
+        n = len(c)
+        near = lambda t: int(np.argmin(np.abs(t - c)))
+        if "int" in sel:
+            i = sel["int"]
+            if -n <= i < n:
+                return {"exact": [i % n]}
+            return {"any": True}
+        if "flt" in sel:
+            return {"exact": [near(float(Fraction(sel["flt"])))]}
+        if "tup1" in sel:
+            return {"exact": [near(float(Fraction(sel["tup1"])))]}
+        if "slice" in sel:
+            return {"exact": list(range(n))[slice(*sel["slice"])]}
+        lo, hi = (float(Fraction(x)) for x in sel["range"])
+        i, j = near(lo), near(hi)
+        mono = bool(np.all(np.diff(c) > 0) or np.all(np.diff(c) < 0)) or n == 1
+        return {"between": (min(i, j), max(i, j)), "mono": mono}
+
+    def post(self, op, st, line, pre):
+        if pre is None:
+            return []
+        o, sig = op["op"], op_sig(op)
+        a = pre["a"]
+        sels = {}
+        for d, s in op["sel"]:
+            sels[d] = s
+        if any(d not in a["dims"] for d in sels):
+            return [] if line["outcome"].startswith("raise") else ["C05:unknown-dim-accepted:" + sig]
+        kinds = "+".join(sorted(next(iter(s)) for s in sels.values()))
+        if o == "getitem":
+            if line["outcome"] != "ok":
+                bad = any("slice" in s and s["slice"][2] == 0 for s in sels.values())
+                return [] if bad else ["C05:unexpected-raise:%s:%s" % (sig, kinds)]
+            r = st.objs[op["out"]]
+            if list(r.dims) != a["dims"]:
+                return ["C05:dims-changed:%s:%s" % (sig, kinds)]
+            pos = []
+            for k, d in enumerate(a["dims"]):
+                src = a["coords"][k].tolist()
+                got = np.asarray(r.coords.coords[k]).tolist()
+                try:
+                    p = [src.index(x) for x in got]
+                except ValueError:
+                    return ["C05:coord-not-from-source:%s:%s" % (sig, kinds)]
+                if d not in sels and p != list(range(len(src))):
+                    return ["C05:unselected-dim-touched:%s:%s" % (sig, kinds)]
+                if d in sels:
+                    e = self.expected_positions(a["coords"][k], sels[d])
+                    if "exact" in e and p != e["exact"]:
+                        return ["C05:wrong-positions:%s:%s" % (sig, next(iter(sels[d])))]
+                    if "between" in e and e["mono"]:
+                        lo, hi = e["between"]
+                        ok = (len(p) > 0 and p == list(range(p[0], p[0] + len(p))) and p[0] >= lo and p[-1] <= hi
+                              and all(q in p for q in range(lo + 1, hi)))
+                        if not ok:
+                            asc = "asc" if len(src) < 2 or src[-1] > src[0] else "desc"
+                            return ["C05:range-run:%s:%s" % (sig, asc)]
+                pos.append(p)
+            want = a["values"][np.ix_(*pos)] if pos else a["values"]
+            if np.asarray(r.values).shape != want.shape or not np.array_equal(np.asarray(r.values), want):
+                return ["C05:values-cut-differently:%s:%s" % (sig, kinds)]
+            return []
+        # setitem: writes exactly the positions that reading returns
+        if line["outcome"] != "ok":
+            return []
+        args = []
+        from implstore import to_sel
+        for d, s in op["sel"]:
+            args += [d, to_sel(s)]
+        try:
+            read = pre["obj"][tuple(args)]
+        except Exception:
+            return ["C05:write-accepts-what-read-rejects:%s:%s" % (sig, kinds)]
+        now = np.asarray(st.objs[op["obj"]].values)
+        changed = now != a["values"]
+        # positions read: by coordinates of the read result
+        pos = []
+        for k, d in enumerate(a["dims"]):
+            src = a["coords"][k].tolist()
+            pos.append([src.index(x) for x in np.asarray(read.coords.coords[k]).tolist()])
+        mask = np.zeros(a["values"].shape, dtype=bool)
+        if all(len(p) for p in pos):
+            mask[np.ix_(*pos)] = True
+        if not np.array_equal(mask, changed):
+            return ["C05:write-read-disagree:%s:%s" % (sig, kinds)]
+        return []
